@@ -151,9 +151,11 @@ CHECKS["C12"] = {
                     "thorough": ["maxseq=1000;a.ec.digits=%d;p.ec.digits=%d" % (a, b) for a in _D5 for b in _D5]},
          "timeout": {"quick": 1500, "thorough": 20000}},
         {"pkg": "./pkg/db", "entry": "VerifC12_Store", "reach": ["lookup-absent", "lookup-present", "stream-empty", "stream-nonempty"], "opts": {"exactfmt": "true"},
-         "shards": {"quick": ["nvaa=0,1"] + ["nvaa=2;q.tc.digits=%d;v.tc.digits#0=%d" % (a, b) for a in _D4 for b in _D4],
-                    "thorough": ["nvaa=0,1"] + ["nvaa=2;q.tc.digits=%d;v.tc.digits#0=%d" % (a, b) for a in _D4 for b in _D4] +
-                                ["nvaa=3;v.ec.digits=1,2;q.ec.digits=1,2;v.tc.digits=1,2,3;q.tc.digits=%d;v.tc.digits#0=%d" % (a, b) for a in (1, 2, 3) for b in (1, 2, 3)]}},
+         "shards": {"quick": ["nvaa=0,1;maxseq=3"] + ["nvaa=2;maxseq=3;q.tc.digits=%d;v.tc.digits#0=%d" % (a, b) for a in _D4 for b in _D4] +
+                             ["nvaa=0,1;maxseq=12", "nvaa=2;maxseq=12;v.ec.digits=1;v.tc.digits=1;q.ec.digits=1;q.tc.digits=1"],
+                    "thorough": ["nvaa=0,1"] + ["nvaa=2;maxseq=3;q.tc.digits=%d;v.tc.digits#0=%d" % (a, b) for a in _D4 for b in _D4] +
+                                ["nvaa=2;maxseq=12;v.ec.digits=1,2;q.ec.digits=1,2;v.tc.digits=1,2;q.tc.digits=%d;v.tc.digits#0=%d" % (a, b) for a in (1, 2) for b in (1, 2)] +
+                                ["nvaa=3;maxseq=3;v.ec.digits=1,2;q.ec.digits=1,2;v.tc.digits=1,2,3;q.tc.digits=%d;v.tc.digits#0=%d" % (a, b) for a in (1, 2, 3) for b in (1, 2, 3)]}},
         {"pkg": "./pkg/db", "entry": "VerifC12_GovBatch", "reach": ["some", "none"], "opts": {"exactfmt": "true"},
          "shards": {"quick": ["nvaa=0,1"] + ["nvaa=2;gov.ec.digits=%d;v.tc.digits#0=%d;v.ec.digits=1,2;v.tc.digits#1=1,2;nreq=%d" % (a, b, r) for a in (1, 2) for b in (1, 2) for r in (1, 2)],
                     "thorough": ["nvaa=0,1"] + ["nvaa=2;gov.ec.digits=%d;v.tc.digits#0=%d;nreq=%d" % (a, b, r) for a in _D4 for b in _D4 for r in (1, 2)]},
@@ -165,11 +167,11 @@ CHECKS["C12"] = {
     ],
     "bounds": {"quick": {"public rpc": "0..2 stored VAAs with fully symbolic identifiers; one request with 32-bit chain numbers (in range / above 65535 / negative), the address string in six forms (lower/upper-case hex of 32 bytes, 31 bytes, 33 bytes, a non-hex character, empty), any sequence; batch of 0, 1, 2 or 21 sequences; GetSignedVAA and GetNonGovernanceVAABatch as real code over the db code and the key-value model (identifier key summarised as injective - licensed by the key lemmas)",
                          "key lemmas": "two fully symbolic identifiers: every 16-bit emitter/target chain id (all five decimal digit counts), every 32-byte address, sequences < 10",
-                         "store": "0..2 stored VAAs with symbolic ids (chain ids from the digit classes 1,2,3,5 digits, address bytes 0 and 31 symbolic, sequence 0..3, ids may coincide) + one symbolic query id; lookup, gap scan and governance batch on the real db code over a key-value model of badger",
+                         "store": "0..2 stored VAAs with symbolic ids (chain ids from the digit classes 1,2,3,5 digits, address bytes 0 and 31 symbolic, sequence 0..3 - with one-digit chain ids also 0..12, i.e. one- and two-digit sequence keys -, ids may coincide) + one symbolic query id; lookup, gap scan and governance batch on the real db code over a key-value model of badger",
                          "unwind": 3000},
                "thorough": {"key lemmas": "sequences < 1000", "store": "additionally 3 stored VAAs with chain ids of 1..3 digits"}},
-    "outside": "badger itself (modelled as a key->value map whose prefix iteration visits exactly the keys having the prefix); 4-digit chain ids in the store harness (covered by the key lemmas); more than 3 stored VAAs; sequences >= 1000 in keys and > 3 in the gap loop (at 2^64-1 the gap loop cannot terminate - noted, not a property subject); the order of batch results",
-    "assumptions": ["badger model (DESIGN 4): Get of an absent key returns ErrKeyNotFound; an iterator visits exactly the present keys that have the Seek prefix",
+    "outside": "badger itself (modelled as a key->value map whose prefix iteration visits exactly the keys having the prefix, in lexicographic key order); 4-digit chain ids in the store harness (covered by the key lemmas); more than 3 stored VAAs; sequences >= 1000 in keys and > 3 in the gap loop (at 2^64-1 the gap loop cannot terminate - noted, not a property subject); the order of batch results",
+    "assumptions": ["badger model (DESIGN 4): Get of an absent key returns ErrKeyNotFound; an iterator visits exactly the present keys that have the Seek prefix, smallest key first (lexicographic byte order, decided by the solver)",
                     "fmt %d rendered exactly: digit-count forks, digit variables tied to the value by value = sum d_i*10^i",
                     "hex.EncodeToString modelled as the injective per-nibble rendering"],
 }
